@@ -40,7 +40,7 @@ def strategy(tier):
     files = corpus.small_files(fixprops.MAXLINES[tier])
     return st.fixed_dictionaries(
         {
-            "file": st.sampled_from(files),
+            "file": common.source_strategy(files),
             "level": st.sampled_from([0, 1, 1, 2, 3]),
             "lseed": st.integers(0, 2**31 - 1),
             "tabs": st.just(False),
